@@ -281,3 +281,142 @@ func Show(v Val) string {
 	}
 	return fmt.Sprintf("%T", v)
 }
+
+// SameVal is identity of symbolic values: same terms, same references, same
+// structure. It never inspects term structure (terms are hash-consed).
+func SameVal(a, b Val) bool {
+	switch x := a.(type) {
+	case nil:
+		return b == nil
+	case *smt.Term:
+		y, ok := b.(*smt.Term)
+		return ok && x == y
+	case Str:
+		y, ok := b.(Str)
+		if !ok || x.S != y.S || x.Fmt != y.Fmt || x.Arr != y.Arr || x.Len != y.Len || len(x.Args) != len(y.Args) {
+			return false
+		}
+		for i := range x.Args {
+			if x.Args[i] != y.Args[i] {
+				return false
+			}
+		}
+		return true
+	case Ptr:
+		y, ok := b.(Ptr)
+		if !ok || x.Obj != y.Obj || len(x.Path) != len(y.Path) {
+			return false
+		}
+		for i := range x.Path {
+			if x.Path[i] != y.Path[i] {
+				return false
+			}
+		}
+		return true
+	case Slice:
+		y, ok := b.(Slice)
+		return ok && x == y
+	case *Struct:
+		y, ok := b.(*Struct)
+		if !ok {
+			return false
+		}
+		if x == y {
+			return true
+		}
+		if len(x.F) != len(y.F) {
+			return false
+		}
+		for i := range x.F {
+			if !SameVal(x.F[i], y.F[i]) {
+				return false
+			}
+		}
+		return true
+	case *Arr:
+		y, ok := b.(*Arr)
+		if !ok {
+			return false
+		}
+		if x == y {
+			return true
+		}
+		if len(x.Elems) != len(y.Elems) || len(x.Sym) != len(y.Sym) || (x.Elems == nil) != (y.Elems == nil) {
+			return false
+		}
+		for i := range x.Elems {
+			if !SameVal(x.Elems[i], y.Elems[i]) {
+				return false
+			}
+		}
+		for i := range x.Sym {
+			if x.Sym[i] != y.Sym[i] {
+				return false
+			}
+		}
+		return true
+	case Iface:
+		y, ok := b.(Iface)
+		if !ok {
+			return false
+		}
+		if (x.T == nil) != (y.T == nil) {
+			return false
+		}
+		if x.T == nil {
+			return true
+		}
+		return types.Identical(x.T, y.T) && SameVal(x.V, y.V)
+	case MapRef:
+		y, ok := b.(MapRef)
+		return ok && x == y
+	case *MapVal:
+		y, ok := b.(*MapVal)
+		if !ok {
+			return false
+		}
+		if x == y {
+			return true
+		}
+		if len(x.Keys) != len(y.Keys) {
+			return false
+		}
+		for i := range x.Keys {
+			if !SameVal(x.Keys[i], y.Keys[i]) || !SameVal(x.Vals[i], y.Vals[i]) {
+				return false
+			}
+			var px, py *smt.Term
+			if x.Present != nil {
+				px = x.Present[i]
+			}
+			if y.Present != nil {
+				py = y.Present[i]
+			}
+			if px != py {
+				return false
+			}
+		}
+		return true
+	case *Closure:
+		y, ok := b.(*Closure)
+		return ok && x == y
+	case Tuple:
+		y, ok := b.(Tuple)
+		if !ok || len(x) != len(y) {
+			return false
+		}
+		for i := range x {
+			if !SameVal(x[i], y[i]) {
+				return false
+			}
+		}
+		return true
+	case Float:
+		y, ok := b.(Float)
+		return ok && x == y
+	}
+	// other kinds (iterators, opaque host values): identical only if the
+	// very same value
+	defer func() { recover() }()
+	return a == b
+}
